@@ -286,6 +286,38 @@ def first_diff(a, b):
     return None if a == b else "%s-value" % _tn(a)
 
 
+def _emptyish(x):
+    return x is None or (isinstance(x, (dict, list, tuple)) and len(x) == 0)
+
+
+def diff_class(a, b):
+    """Class of the first difference, coarse enough to follow the Differ's root causes."""
+    if _tn(a) != _tn(b):
+        if isinstance(a, (bool, int)) and isinstance(b, (bool, int)) and a == b:
+            return "bool-vs-int"
+        if _emptyish(a) and _emptyish(b):
+            return "kind-change-between-empty-or-null-values"
+        return "%s-vs-%s" % (_tn(a), _tn(b))
+    if isinstance(a, gen.SetT):
+        return "set-members"
+    if isinstance(a, dict):
+        if set(map(repr, a)) != set(map(repr, b)):
+            return "map-keys"
+        for k in a:
+            if canon(a[k]) != canon(b[k]):
+                return diff_class(a[k], b[k])
+        return "map-order-only"
+    if isinstance(a, list):
+        if len(a) != len(b):
+            if len(b) == 0:
+                return "sequence-vs-empty-sequence"
+            return "seq-length"
+        for x, y in zip(a, b):
+            if canon(x) != canon(y):
+                return diff_class(x, y)
+    return "%s-value" % _tn(a)
+
+
 def _tn(x):
     if isinstance(x, gen.SetT):
         return "set"
@@ -294,6 +326,19 @@ def _tn(x):
     if isinstance(x, list):
         return "seq"
     return "null" if x is None else type(x).__name__
+
+
+def _load_error_class(text):
+    log = gen.QuietLog()
+    from yamlpath.common import Parsers
+    Parsers.get_yaml_data(Parsers.get_yaml_editor(), log, text, literal=True)
+    msg = log.msgs[0][1] if log.msgs else "unknown"
+    for needle, cls in (("Duplicate YAML Anchor", "duplicate-anchor"), ("Duplicate Hash key", "duplicate-key"),
+                        ("parsing error", "parse-error"), ("syntax error", "syntax-error"),
+                        ("composition error", "composition-error"), ("construction error", "construction-error")):
+        if needle in msg:
+            return cls
+    return "other"
 
 
 def try_load(text):
@@ -392,7 +437,7 @@ def get_line_ok(node, line):
             return float(line) == float(node), "float"
         except ValueError:
             return False, "float"
-    return line == str(node), type(node).__name__
+    return line == str(node), ("int" if isinstance(node, int) else "other-scalar")
 
 
 def check_get(ctx, case):
@@ -443,7 +488,8 @@ def check_get(ctx, case):
                         break
     else:  # nothing matched / invalid path / unloadable
         if base["code"] == 0:
-            col.witness("C16/yaml-get/zero-exit-although-" + ("nomatch" if ref[0] == "ok" else ref[0]),
+            cls = ("nomatch" if ref[0] == "ok" else ref[0]) + ("/null-document" if _is_null_doc(text) else "")
+            col.witness("C16/yaml-get/zero-exit-although-" + cls,
                         "nothing matched but the tool exits 0", case,
                         observed={"exit": 0, "out": base["out"][:200]}, expected="exit != 0")
         elif [ln for ln in base["out"].split("\n") if ln and not ln.startswith("Please try --help")]:
@@ -457,6 +503,11 @@ def check_get(ctx, case):
                         observed={"variant": name, "exit": r["code"], "out": r["out"][:200], "exc": r["exc"]},
                         expected={"exit": base["code"], "out": base["out"][:200]})
     ctx.clean()
+
+
+def _is_null_doc(text):
+    data, ok = try_load(text)
+    return ok and data is None
 
 
 def _unjson_segs(segs):
@@ -533,21 +584,22 @@ def _judge_set_result(ctx, case, where, text_after, expected, wrote_json_hint):
     col = ctx.col
     data, ok = try_load(text_after)
     if not ok:
-        col.witness("C16/yaml-set/%s-output-does-not-reload" % where, "the document left behind does not load", case,
-                    observed=text_after[:200], expected=expected)
+        col.witness("C16/yaml-set/output-does-not-reload/" + _load_error_class(text_after),
+                    "the document left behind does not load", case,
+                    observed={"where": where, "text": text_after[:200]}, expected=repr(expected)[:200])
         return "UNLOADABLE"
     got = gen.plain(data)
     if canon(got) != canon(expected):
         if canon(got) == canon(json_norm(expected)):
             # flow-style YAML input is written back as JSON: non-string keys / sets do not survive
-            what = "set" if "set" in repr(canon(expected)) and "set" not in repr(canon(got)) else "non-string-key"
-            col.witness("C16/yaml-set/flow-yaml-rewritten-as-json-alters-%s" % what,
-                        "a flow-style YAML document is written back as JSON; data that JSON cannot hold is altered",
-                        case, observed=text_after[:200], expected=repr(expected)[:200])
+            col.witness("C16/yaml-set/flow-yaml-rewritten-as-json-alters-non-json-data",
+                        "a flow-style YAML document is written back as JSON; data that JSON cannot hold "
+                        "(non-string keys, sets) is altered",
+                        case, observed={"where": where, "text": text_after[:200]}, expected=repr(expected)[:200])
         else:
-            col.witness("C16/yaml-set/%s-differs-from-library-result/%s(%s)" % (where, case["op"]["kind"], first_diff(got, expected)),
+            col.witness("C16/yaml-set/result-differs-from-library-result/%s(%s)" % (case["op"]["kind"], first_diff(got, expected)),
                         "the document left behind is not what the library change produces", case,
-                        observed=text_after[:200], expected=repr(expected)[:200])
+                        observed={"where": where, "text": text_after[:200]}, expected=repr(expected)[:200])
     return got
 
 
@@ -580,9 +632,9 @@ def check_set(ctx, case):
             if r["code"] == "EXC":
                 continue
             if r["code"] != 0:
-                col.witness("C16/yaml-set/%s-nonzero-exit-although-library-succeeds/%s" % (where, op["kind"]),
+                col.witness("C16/yaml-set/nonzero-exit-although-library-succeeds/%s" % op["kind"],
                             "the library applies the change, the tool refuses", case,
-                            observed={"exit": r["code"], "err": r["err"][:200]}, expected="exit 0")
+                            observed={"where": where, "exit": r["code"], "err": r["err"][:200]}, expected="exit 0")
                 continue
             results[where] = _judge_set_result(ctx, case, where, produced, ref[1], case["fmt"] != "block")
         if len(results) == 2 and canon(results["file"]) != canon(results["stdin"]):
@@ -591,9 +643,9 @@ def check_set(ctx, case):
     else:
         for where, r in (("file", rf), ("stdin", rs)):
             if r["code"] == 0:
-                col.witness("C16/yaml-set/%s-zero-exit-although-library-refuses/%s" % (where, op["kind"]),
+                col.witness("C16/yaml-set/zero-exit-although-library-refuses/%s" % op["kind"],
                             "the library refuses the change (%s), the tool reports success" % ref[1][:60], case,
-                            observed={"exit": 0, "after": (after if where == "file" else r["out"])[:200]},
+                            observed={"where": where, "exit": 0, "after": (after if where == "file" else r["out"])[:200]},
                             expected="exit != 0")
     ctx.clean()
 
@@ -647,9 +699,14 @@ def wanted_format(opts, ltext):
             return "json"
         if opts["ext"] in (".yaml", ".yml"):
             return "yaml"
-    t = ltext.lstrip()
+    t = ltext.strip()
     if t[:1] in ("{", "["):
-        return "json"
+        # a non-empty container that is strict JSON is "a JSON document"; `{}` / `[]` / flow YAML
+        # are not decided by the docs (from-code: flow root => JSON)
+        try:
+            return "json" if len(json.loads(t)) > 0 else None
+        except ValueError:
+            return None
     if t[:2] == "!!" or not (":" in t or t.startswith("-")):
         return None            # scalar / tagged root: the docs do not say what "type" it has
     return "yaml"
@@ -844,7 +901,7 @@ def check_diff(ctx, case):
                         "two data-equal documents, exit != 0 (inherited from the Differ's report)", case,
                         observed={"exit": base["code"], "out": base["out"][:200]}, expected="exit 0")
         if not equal and base["code"] == 0:
-            col.witness("C16/yaml-diff/data-differ-but-exit-zero/%s" % first_diff(lplain, rplain),
+            col.witness("C16/yaml-diff/data-differ-but-exit-zero/%s" % diff_class(lplain, rplain),
                         "two different documents, exit 0 and no report (inherited from the Differ's report)", case,
                         observed={"exit": 0, "out": base["out"][:200]}, expected="exit 1 and entries")
     for name, r in runs[1:]:
@@ -1113,7 +1170,9 @@ def build_cases(tier, seed):
     for i, t in enumerate(temps):
         rs = renderings(t) if i % 3 == 0 else renderings(t, ("block",))
         for fmt, text in rs:
-            for segs in GET_PATHS:
+            for j, segs in enumerate(GET_PATHS):
+                if quick and (i + j) % 2:
+                    continue
                 cases.append({"tool": "get", "doc": text, "fmt": fmt, "shape": shape(t), "segs": segs})
     for name, text in RAW_DOCS:
         for segs in GET_PATHS:
@@ -1127,7 +1186,7 @@ def build_cases(tier, seed):
         for fmt, text in rs:
             for j, segs in enumerate(SET_PATHS):
                 for k, op in enumerate(SET_OPS):
-                    if quick and (i + j + k) % 2:
+                    if (i + j + k) % 3 and (quick or (i + j + k) % 3 == 1):
                         continue
                     cases.append({"tool": "set", "doc": text, "fmt": fmt, "shape": shape(t), "segs": segs, "op": op,
                                   "sep": "/" if (i + j) % 5 == 0 else "."})
@@ -1138,7 +1197,10 @@ def build_cases(tier, seed):
     # --- merge / diff: pairs of small documents
     small = gen.trees(3, 2, keys=("a", "b"), scalars=(None, True, 1, "a"))
     small = [t for t in small if t is not None] + CRAFTED[:4]
-    pool = small if not quick else [t for i, t in enumerate(small) if i % 2 == 0 or isinstance(t, (dict, list))][:70]
+    if quick:
+        pool = [t for i, t in enumerate(small) if i % 2 == 0 or isinstance(t, (dict, list))][:70]
+    else:
+        pool = small if len(small) <= 300 else random.Random(seed + 2).sample(small, 300)
     rngp = random.Random(seed + 1)
     for li, lt in enumerate(pool):
         for ri, rt in enumerate(pool):
@@ -1176,7 +1238,7 @@ def build_cases(tier, seed):
         text = to_block(t) if i % 3 else gen.to_yaml(t) + "\n"
         for j, expr in enumerate(PATHS_EXPR):
             for k, opts in enumerate(PATHS_OPTS):
-                if quick and (i + j + k) % 4:
+                if (i + j + k) % (4 if quick else 2):
                     continue
                 cases.append({"tool": "paths", "doc": text, "shape": shape(t), "expr": expr, "opts": opts})
     for name, text in RAW_DOCS:
@@ -1212,6 +1274,9 @@ def _work(chunk):
 def run(tier="quick", seed=0, jobs=None):
     _sanity_validity()
     cases = build_cases(tier, seed)
+    only = os.environ.get("VERIF_C16_TOOLS")       # development aid: "get,diff" restricts the run (reported in bounds)
+    if only:
+        cases = [c for c in cases if c.get("check", c["tool"]) in only.split(",")]
     rng = random.Random(seed)
     rng.shuffle(cases)           # spread the slow tools over the workers
     total = Collector(max_samples=8)
@@ -1231,7 +1296,7 @@ def run(tier="quick", seed=0, jobs=None):
               "utf-8) + %d random; block/flow/JSON renderings; file, '-', implicit-stdin delivery; dot and '/' notation"
               % ("<=3 nodes depth<=2" if tier == "quick" else "<=4 nodes depth<=2", 40 if tier == "quick" else 400)),
         exhaustive=False,
-        bounds={"tier": tier, "seed": seed, "cases_per_tool": per_tool, "get_paths": len(GET_PATHS),
+        bounds={"tier": tier, "seed": seed, "restricted_to": only, "cases_per_tool": per_tool, "get_paths": len(GET_PATHS),
                 "set_paths": len(SET_PATHS), "set_ops": len(SET_OPS), "merge_option_sets": len(MERGE_OPTS),
                 "paths_expressions": len(PATHS_EXPR), "paths_option_sets": len(PATHS_OPTS),
                 "validate_file_kinds": len(VALIDATE_FILES), "arg_error_cases": len(arg_cases()),
